@@ -23,7 +23,9 @@ extern "C" void frg_verif_point(const char *, const void *, unsigned long) {
 struct Val {
 	uint64_t key, version, check; // plain
 	Val(uint64_t k, uint64_t v) : key(k), version(v), check(mix(k, v)) {}
+#ifndef C10_TRIVIAL_VALUE // (the drivers are built twice: a trivially destructible payload takes other `if constexpr` paths of a container than one with a destructor)
 	~Val() { check = 0xDEADDEADDEADDEADull; key = ~key; } // the end of the value's lifetime is observable: plain stores (a reader that can still reach the value races with them / sees a value that is not intact)
+#endif
 };
 struct JunkAlloc {
 	void *allocate(size_t n) { void *p = malloc(n); memset(p, 0xCD, n); return p; }
